@@ -27,6 +27,9 @@ if os.path.exists(mf):
     meta = json.load(open(mf))
 elif os.path.exists(os.path.join(O, "meta%s.json" % k)):
     meta = json.load(open(os.path.join(O, "meta%s.json" % k)))
+if os.environ.get("SEED_IMPORT_ONLY"):
+    json.dump(meta, open(mf, "w"), indent=1)
+    print("imported", D); sys.exit(0)
 st = subprocess.run(["git", "-C", R, "status", "--short", "--untracked-files=no"], stdout=subprocess.PIPE).stdout.decode().strip()
 if st:
     print(R, "is not clean:", st); sys.exit(2)
